@@ -240,6 +240,7 @@ class World:
         self.after_event = None      # callable(kind, path)
         self.total_events = 0
         self.trace: list[tuple[str, str]] = []
+        self.sticky: dict[str, tuple[str, int]] = {}
         self._baseline = set(sys.modules)
 
     # -- lifecycle ---------------------------------------------------------
@@ -406,6 +407,16 @@ class World:
         key = f"{proc.name}#{proc.fs_calls}"
         fault = self.plan.get(key)
         if fault is None:
+            st = self.sticky.get(proc.name)
+            if st is not None and st[1] > 0 and kind in APPLICABLE[st[0]]:
+                # a persisting fault (bad sector, full disk): the next
+                # applicable calls of this process fail the same way
+                self.sticky[proc.name] = (st[0], st[1] - 1)
+                self.fired[st[0]] = self.fired.get(st[0], 0) + 1
+                self.fired["persisting"] = self.fired.get("persisting", 0) + 1
+                self.log.add("FAULT+", st[0], proc.name, label)
+                return st[0]
+        if fault is None:
             if self.after_event is not None:
                 self.after_event(kind, path)
             return None
@@ -421,6 +432,8 @@ class World:
         if kind in APPLICABLE.get(fk, ()):
             self.fired[fk] = self.fired.get(fk, 0) + 1
             self.log.add("FAULT", fk, proc.name, label)
+            if fault.get("span", 1) > 1:
+                self.sticky[proc.name] = (fk, fault["span"] - 1)
             return fk
         self.skipped[fk] = self.skipped.get(fk, 0) + 1
         return None
